@@ -37,7 +37,7 @@ Record hep_shapes (raw mangle filter : chains) : Prop := {
 }.
 
 Theorem failsafe_accept_all_paths : forall c raw mangle filter e p,
-  cfg_ok c -> c_wg_raw c = false ->
+  cfg_ok c -> N.land (c_wg_mark c) (c_scr0 c) = 0 ->
   (forall q m, e_other e (2 * O_DST_LOCAL) (set_mark q m) = e_other e (2 * O_DST_LOCAL) q) ->
   installed c raw mangle filter -> hep_shapes raw mangle filter ->
   pk_ver p = c_ver c ->
@@ -50,7 +50,7 @@ Proof.
     rewrite !andb_true_iff. repeat split.
     + destruct (disp_ok_lookup _ _ _ S1) as [d Hd].
       apply (hook_not_dropped raw e (I_in c e) (raw_prerouting c)); [apply (Hr (CH_PREROUTING, _)); cbn; tauto| |exact Hp].
-      intro n. apply (fs_in_raw_prerouting c raw e Hc Hlocal n d Hwg); [apply (Hr (CH_FS_IN, _)); cbn; tauto|exact Hd|exact S1].
+      intro n. apply (fs_in_raw_prerouting c raw e Hc Hlocal n d); [intros _; split; [apply (Hr (CH_WG_MARK, _)); cbn; tauto|exact Hwg]|apply (Hr (CH_FS_IN, _)); cbn; tauto|exact Hd|exact S1].
     + destruct (disp_ok_lookup _ _ _ S3) as [d Hd].
       apply (hook_not_dropped mangle e (I_in c e) (mangle_prerouting c)); [apply (Hm (CH_PREROUTING, _)); cbn; tauto| |exact Hp].
       intro n. apply (fs_in_mangle_prerouting c mangle e Hc Hlocal n d); [apply (Hm (CH_FS_IN, _)); cbn; tauto|exact Hd|exact S3].
